@@ -75,15 +75,26 @@ def run_workers(prop, tier, seed, bins, subs_env):
         log = open(os.path.join(tmp, f"w{k}.log"), "w")
         procs.append((subprocess.Popen(cmd, cwd=HERE, env=e, stdout=log, stderr=subprocess.STDOUT), out, log, k))
     results = []
+    budget = float(os.environ.get("VERIF_WALL_BUDGET", "1500" if tier == "quick" else "14400"))
+    t_start = time.time()
     for p, out, log, k in procs:
-        rc = p.wait()
+        try:
+            rc = p.wait(timeout=max(1.0, budget - (time.time() - t_start)))
+        except subprocess.TimeoutExpired:
+            # time budget hit: inconclusive for this worker, never a violation
+            p.kill()
+            p.wait()
+            rc = 3
+            print(f"note: worker {k} exceeded the wall-clock budget of {budget:.0f}s and was stopped (inconclusive)")
+            if not os.path.exists(out):
+                json.dump(dict(status="ok", notes=[f"worker {k} stopped 0.0s"]), open(out, "w"))
         log.close()
         if os.path.exists(out):
             r = json.load(open(out))
         else:
             tail = open(log.name).read()[-1500:]
             crumb = os.path.join(tmp, f"w{k}.crumb")
-            if rc < 0 and os.path.exists(crumb):
+            if -rc in (4, 6, 7, 8, 11) and os.path.exists(crumb):
                 # the process was killed by a signal while running a case: that case is the finding
                 from vlib import core
 
@@ -95,7 +106,17 @@ def run_workers(prop, tier, seed, bins, subs_env):
                          notes=[f"worker {k} crashed rc={rc} 0.0s"])
             else:
                 r = dict(status="harness_error", error=f"worker {k} died rc={rc}: {tail}")
-        if rc not in (0, 2) and r.get("status") == "ok":
+        if r.get("status") == "stalled":
+            # inconclusive, never a violation: keep the partial results, save the case for inspection
+            sc = r.get("stalled_case") or {}
+            d_ = os.path.join(HERE, "replays", prop)
+            os.makedirs(d_, exist_ok=True)
+            sp = os.path.join(d_, f"stalled-w{k}.json")
+            json.dump(dict(property=prop, sub=sc.get("sub"), case=sc.get("case"), kind="stalled", message="no progress within the case time limit"), open(sp, "w"))
+            r["status"] = "ok"
+            r.setdefault("notes", []).append(f"worker {k} stalled 0.0s")
+            print(f"note: a worker made no progress on one case within the time limit (inconclusive, not a violation); case saved to {sp}")
+        elif rc not in (0, 2) and r.get("status") == "ok" and not (rc < 0 and r.get("failures")):
             r["status"] = "harness_error"
             r["error"] = f"worker {k} rc={rc}"
         results.append(r)
@@ -110,7 +131,11 @@ def replay_one(prop, path):
     fd, out = tempfile.mkstemp(prefix="replay_", suffix=".json", dir=os.path.join(HERE, ".cache"))
     os.close(fd)
     cmd = [env.PY, "-m", "vlib.worker", prop, "--replay", path, "--out", out]
-    p = subprocess.run(cmd, cwd=HERE, env=env.worker_env(), capture_output=True, text=True)
+    try:
+        p = subprocess.run(cmd, cwd=HERE, env=env.worker_env(), capture_output=True, text=True, timeout=1200)
+    except subprocess.TimeoutExpired:
+        os.unlink(out)
+        return dict(error="replay did not finish within 1200s (inconclusive)")
     try:
         r = json.load(open(out))
     except Exception:
@@ -175,7 +200,11 @@ def main():
             fd, out = tempfile.mkstemp(prefix="reg_", suffix=".json", dir=os.path.join(HERE, ".cache"))
             os.close(fd)
             cmd = [env.PY, "-m", "vlib.regress", prop, reg_dir, out]
-            p = subprocess.run(cmd, cwd=HERE, env=env.worker_env(), capture_output=True, text=True)
+            try:
+                p = subprocess.run(cmd, cwd=HERE, env=env.worker_env(), capture_output=True, text=True, timeout=900)
+            except subprocess.TimeoutExpired as te:
+                p = te
+                p.stdout, p.stderr = "", "regression replays did not finish within 900s"
             try:
                 reg_results = json.load(open(out))
             except Exception:
@@ -275,4 +304,7 @@ def main():
 
 
 if __name__ == "__main__":
-    sys.exit(main())
+    _rc = main()
+    sys.stdout.flush()
+    sys.stderr.flush()
+    os._exit(_rc or 0)  # skip interpreter teardown (native thread pools have been seen to hang there)
